@@ -170,7 +170,10 @@ class Traj(Collector):
 
 class StochModel(Model):
     def __init__(self, seed=1, kind="plain", n=5, mix="pick,shuffle,move,churn"):
-        super().__init__(seed=seed)
+        if n % 2:
+            super().__init__(seed=seed)
+        else:
+            super().__init__(seed)          # the seed by position, as the repository's own example models pass it
         self.kind = kind
         if kind in ("grid", "tgrid"):
             self.set_environment(GridWorld(self, 5, 4, wrap_env=(kind == "tgrid")))
